@@ -1,18 +1,21 @@
 #!/bin/bash
-# usage: tools/scratch_matrix.sh seeds|mutants [tier]
+# usage: tools/scratch_matrix.sh seeds|mutants [tier] [seed-id regex] [tag]
+# With a regex only the matching seeds are run and their rows are merged into seeded/RESULTS.tsv (several
+# invocations with different tags may run side by side, each on its own scratch pair).
 # Runs a detection matrix against a scratch pair (git worktree of /repo at HEAD + a copy of /verif whose harness
 # points at that worktree), so that /repo itself stays untouched and usable meanwhile. Results are copied back
 # to /verif/{seeded,mutants}/RESULTS.tsv; the scratch pair is removed afterwards.
 set -u
-WHAT=${1:-seeds}; TIER=${2:-quick}
-MX=/tmp/mx-$WHAT
+WHAT=${1:-seeds}; TIER=${2:-quick}; FILTER=${3:-.}; TAG=${4:-0}
+MX=/root/scratch/mx-$WHAT-$TAG
 rm -rf $MX/verif; git -C /repo worktree remove --force $MX/repo 2>/dev/null; mkdir -p $MX
 git -C /repo worktree add --detach $MX/repo HEAD >/dev/null 2>&1 || { echo "cannot create worktree"; exit 2; }
-rsync -a --exclude target --exclude .git --exclude 'evidence/replays' /verif/ $MX/verif/
+rsync -a --exclude conf/target --exclude .git --exclude 'evidence/replays' /verif/ $MX/verif/
 sed -i "s#\"/repo/#\"$MX/repo/#g" $MX/verif/harness/Cargo.toml
 export VERIF_REPO=$MX/repo VERIF_HOME=$MX/verif CARGO_NET_OFFLINE=true
 if [ "$WHAT" = seeds ]; then
-  $MX/verif/seeded/matrix.sh $TIER; cp $MX/verif/seeded/RESULTS.tsv /verif/seeded/RESULTS.tsv
+  SEED_FILTER="$FILTER" RESULTS_OUT=$MX/results.tsv $MX/verif/seeded/matrix.sh $TIER
+  python3 /verif/tools/merge_results.py $MX/results.tsv /verif/seeded/RESULTS.tsv
 else
   $MX/verif/mutants/matrix.sh; cp $MX/verif/mutants/RESULTS.tsv /verif/mutants/RESULTS.tsv
 fi
